@@ -2,9 +2,9 @@
 """Sensitivity self-test: small source mutations of /repo that break a property while the
 test-suite still passes; each must be caught by the property's quick check.
 
-The mutation is applied to /repo's working tree (the checks import the package from there),
-the check is run, and the file is restored with `git checkout` straight afterwards - also on
-error. Nothing is ever committed in /repo by this tool.
+Each mutation is applied in a private scratch worktree of /repo's HEAD (outside /repo and /verif), the
+check is pointed at it with VERIF_REPO, and the worktree is removed afterwards - /repo itself is never
+touched, so this can run next to other checks.
 
 usage: tools/sensitivity.py [ID-prefix ...] [--tier quick] [--with-tests]
 """
@@ -149,12 +149,14 @@ def sh(cmd, **kw):
 def main():
     args = [a for a in sys.argv[1:] if not a.startswith("--")]
     with_tests = "--with-tests" in sys.argv
-    assert sh(f"git -C {REPO} status --porcelain").stdout.strip() == "", "/repo working tree must be clean"
+    import tempfile
+    wt = tempfile.mkdtemp(prefix="wt-sens-", dir="/tmp")
+    assert sh(f"git -C {REPO} worktree add -q --detach {wt} HEAD").returncode == 0
     results = []
     for mid, prop, path, old, new in MUTANTS:
         if args and not any(mid.startswith(a) for a in args):
             continue
-        full = os.path.join(REPO, path)
+        full = os.path.join(wt, path)
         with open(full) as f:
             src = f.read()
         if src.count(old) != 1:
@@ -167,19 +169,19 @@ def main():
                 f.write(src.replace(old, new))
             tests = None
             if with_tests:
-                r = sh(f"cd {REPO} && /venv/bin/python -m pytest -q -p no:cacheprovider --timeout=900 -x 2>&1 | tail -1")
+                r = sh(f"cd {wt} && /venv/bin/python -m pytest -q -p no:cacheprovider --timeout=900 -x 2>&1 | tail -1")
                 tests = r.stdout.strip()
-            r = sh(f"cd {VERIF} && ./check {prop} --tier quick --no-evidence", timeout=1800)
+            r = sh(f"cd {VERIF} && VERIF_REPO={wt} ./check {prop} --tier quick --no-evidence", timeout=3600)
             caught = r.returncode == 1 and f"VIOLATION property={prop}" in r.stdout
             inv = sorted({ln.split("invariant=")[1].split()[0] for ln in r.stdout.splitlines() if "invariant=" in ln and ln.startswith("violation")})
             results.append({"id": mid, "property": prop, "status": "caught" if caught else f"MISSED rc={r.returncode}",
                             "invariants": inv, "tests": tests, "wall_s": round(time.time() - t0, 1),
                             "tail": r.stdout[-300:] if not caught else ""})
         finally:
-            sh(f"git -C {REPO} checkout -- {path}")
+            sh(f"git -C {wt} checkout -- {path}")
         print(json.dumps(results[-1]))
         sys.stdout.flush()
-    assert sh(f"git -C {REPO} status --porcelain").stdout.strip() == "", "/repo not restored!"
+    sh(f"git -C {REPO} worktree remove --force {wt}")
     os.makedirs(os.path.join(VERIF, "sensitivity"), exist_ok=True)
     out = os.path.join(VERIF, "sensitivity", "results.json")
     prev = {}
